@@ -127,7 +127,7 @@ NOOPS = ('StorageLive', 'StorageDead', 'ConstEvalCounter', 'nop', 'PlaceMention'
          'Coverage', 'BackwardIncompatibleDropHint', 'assume(', 'Deinit(')
 
 BASE_ENUMS = {'Option': ['None', 'Some'], 'Result': ['Ok', 'Err'], 'ControlFlow': ['Continue', 'Break'],
-              'Ordering': ['Less', 'Equal', 'Greater']}
+              'Ordering': ['Less', 'Equal', 'Greater'], 'Cow': ['Borrowed', 'Owned']}
 
 
 def bal(s):
